@@ -98,7 +98,11 @@ prop("C05", [
     dict(engine="verus", unit="dhcpparse"),
     dict(engine="verus", unit="dnsser", fns=["push_u16", "push_u32", "push_label", "push_str", "make_edns_opt", "push_rr", "DNSPkt::serialise", "DNSPkt::serialise_with_size"]),
     dict(engine="verus", unit="dhcphandlers", fns=["to_array", "handle_pkt", "handle_discover", "handle_request"]),
-    dict(engine="kani", sets=["net_subnet"]),
+    # served-from-cache path: `x.ttl - decrement` cannot underflow (precondition of clone_with_ttl_decrement discharged from the
+    # cache invariant, which rests on get_expiry == min TTL, checked bounded by Kani)
+    dict(engine="verus", unit="cache", fns=["CacheHandler::get_entry", "CacheHandler::insert_cache_entry", "CacheHandler::calculate_expiry", "CacheHandler::handle_query", "clone_with_ttl_decrement_out_reply", "clone_out_reply"]),
+    dict(engine="verus", unit="dnsttl"),
+    dict(engine="kani", sets=["net_subnet", "dns_ttl"]),
 ], explanation="no-panic / no-overflow / in-bounds / termination of the network-facing decoders for all byte strings of all lengths",
     assumptions=["async handlers are verified as a single task; process-level liveness ('still answers the next request') is not decided, only its in-process cause (a panic)"])
 
